@@ -486,7 +486,7 @@ func expandSplits(spec string) []string {
 	return out
 }
 
-func listHarnesses(repo, prop string, hfs []harnessFile) ([]harnessSpec, error) {
+func listHarnesses(repo, prop, tier string, hfs []harnessFile) ([]harnessSpec, error) {
 	// cheap textual scan: "func Harness_<prop>_"
 	var out []harnessSpec
 	for _, hf := range hfs {
@@ -501,8 +501,8 @@ func listHarnesses(repo, prop string, hfs []harnessFile) ([]harnessSpec, error) 
 				if k := strings.Index(name, "("); k > 0 {
 					fixes := []string{""}
 					for j := li - 1; j >= 0 && strings.HasPrefix(lines[j], "//"); j-- {
-						if strings.HasPrefix(lines[j], "//verif:split ") {
-							fixes = expandSplits(strings.TrimPrefix(lines[j], "//verif:split "))
+						if strings.HasPrefix(lines[j], "//verif:split-"+tier+" ") {
+							fixes = expandSplits(strings.TrimPrefix(lines[j], "//verif:split-"+tier+" "))
 						}
 					}
 					for _, fx := range fixes {
@@ -549,6 +549,7 @@ func cmdRun(args []string) int {
 	solverKind := fs.String("solver", "z3", "solver")
 	noReplay := fs.Bool("noreplay", false, "skip native replay (candidates are then not reported as violations)")
 	keep := fs.Bool("keep", false, "keep worker outputs")
+	budget := fs.Duration("budget", 0, "wall budget per worker (default 5m quick, 50m thorough)")
 	fs.Parse(args)
 	if *prop == "" {
 		fmt.Fprintln(os.Stderr, "run: -prop required")
@@ -563,7 +564,7 @@ func cmdRun(args []string) int {
 		fmt.Fprintln(os.Stderr, "error:", err)
 		return 2
 	}
-	hs, err := listHarnesses(*repo, *prop, hfs)
+	hs, err := listHarnesses(*repo, *prop, *tier, hfs)
 	if err != nil || len(hs) == 0 {
 		fmt.Fprintln(os.Stderr, "error: no harnesses for", *prop, err)
 		return 2
@@ -588,6 +589,12 @@ func cmdRun(args []string) int {
 	if *tier == "thorough" {
 		qt = 60000
 	}
+	if *budget == 0 {
+		*budget = 5 * time.Minute
+		if *tier == "thorough" {
+			*budget = 50 * time.Minute
+		}
+	}
 	results := make([]*WorkerResult, len(sel))
 	var wg sync.WaitGroup
 	sem := make(chan struct{}, *jobs)
@@ -599,7 +606,7 @@ func cmdRun(args []string) int {
 			defer func() { <-sem }()
 			outp := filepath.Join(tmp, fmt.Sprintf("%s-%d.json", h.name, k))
 			cmd := exec.Command(self, "worker", "-repo", *repo, "-prop", *prop, "-harness", h.name, "-out", outp,
-				"-tier", *tier, "-solver", *solverKind, "-qtimeout", fmt.Sprint(qt), "-fix", h.fix)
+				"-tier", *tier, "-solver", *solverKind, "-qtimeout", fmt.Sprint(qt), "-fix", h.fix, "-budget", budget.String())
 			cmd.Env = append(os.Environ(), "GOFLAGS=-mod=mod", "GOPROXY=off", "GOSUMDB=off", "GOTOOLCHAIN=local")
 			var errb strings.Builder
 			cmd.Stderr = &errb
